@@ -21,7 +21,10 @@ TOL = 1e-9
 
 
 def marginal_spec():
-    table = st.fixed_dictionaries({"kind": st.just("table"), "seed": st.integers(0, 10 ** 6)})
+    # "tiny": residues (mod 3) of the degrees whose table value is scaled by 1e-9 -- a marginal may put (almost)
+    # no mass on some degrees of its range, the lower bound included
+    table = st.fixed_dictionaries({"kind": st.just("table"), "seed": st.integers(0, 10 ** 6),
+                                   "tiny": st.sampled_from([[], [], [], [0], [1], [0, 2]])})
     lib = st.one_of(
         st.fixed_dictionaries({"kind": st.just("exponential"), "a": st.floats(0.05, 3.0)}),
         st.fixed_dictionaries({"kind": st.just("poisson"), "m": st.floats(0.2, 8.0)}),
@@ -96,7 +99,8 @@ def make_marginal(spec):
     from gcmpy import exponential, poisson, power_law, scale_free_cut_off
     k = spec["kind"]
     if k == "table":
-        return lambda d, s=spec["seed"]: positive(s, int(d))
+        tiny = set(spec.get("tiny") or [])
+        return lambda d, s=spec["seed"]: positive(s, int(d)) * (1e-9 if int(d) % 3 in tiny else 1.0)
     if k == "exponential":
         return exponential(spec["a"])
     if k == "poisson":
